@@ -200,6 +200,11 @@ func (s *Syncer[H]) tailHeight(ctx context.Context, oldTail, head H) (uint64, er
 // estimateTailHeight estimates the tail header based on the current head.
 // It respects the trusting period, ensuring Syncer never initializes off an expired header.
 func (s *Syncer[H]) estimateTailHeight(head H) uint64 {
+	if s.Params.blockTime <= 0 {
+		// nothing to estimate with: keep all the headers starting from genesis
+		return 1
+	}
+
 	headersToRetain := uint64(s.Params.trustingPeriod / s.Params.blockTime) //nolint:gosec
 	if headersToRetain >= head.Height() {
 		// means chain is very young so we can keep all headers starting from genesis
@@ -219,8 +224,8 @@ func (s *Syncer[H]) findTailHeight(ctx context.Context, oldTail, head H) (uint64
 
 	var estimatedTailHeight uint64
 	switch {
-	case tailTimeDiff <= 0:
-		// current tail is relevant as is
+	case tailTimeDiff <= 0, s.Params.blockTime <= 0:
+		// current tail is relevant as is, or there is nothing to estimate a new one with
 		return oldTail.Height(), nil
 	case tailTimeDiff >= window:
 		// current and expected tails are far from each other
